@@ -46,6 +46,8 @@ type Contract struct {
 	Dyn       map[string][]string
 	Callsites []CallsiteRule
 	Assumes   []Clause // extra assumptions at entry (listed in evidence)
+	Uses      []string // ghost lemma functions whose contracts are available as quantified facts
+	Decreases []Clause // termination measure for recursive functions
 	File      string
 	Line      int
 }
@@ -67,7 +69,7 @@ type SpecFunc struct {
 
 var clauseKeywords = map[string]bool{"func": true, "requires": true, "ensures": true, "modifies": true,
 	"loop": true, "pure": true, "trusted": true, "may_panic": true, "nullable": true, "dyn": true,
-	"callsite": true, "lemma": true, "assume": true, "pkgrule": true}
+	"callsite": true, "lemma": true, "assume": true, "pkgrule": true, "uses": true, "decreases": true}
 
 // rewriteImplies turns `a ==> b` into `implies(a, b)` (lowest precedence, right associative).
 func rewriteImplies(s string) string {
@@ -217,7 +219,12 @@ func parseContractText(lines []string, lineNos []int, file, pkgPath string) (*Co
 		pend = nil
 		kw, text := p.kw, strings.TrimSpace(p.text)
 		if kw == "func" {
-			cur = &Contract{Key: canonKey(pkgPath, text), PkgPath: pkgPath, Loops: map[int]*LoopSpec{},
+			ctxPkg := pkgPath
+			if j := strings.Index(text, " @"); j >= 0 {
+				ctxPkg = strings.TrimSpace(text[j+2:])
+				text = strings.TrimSpace(text[:j])
+			}
+			cur = &Contract{Key: canonKey(pkgPath, text), PkgPath: ctxPkg, Loops: map[int]*LoopSpec{},
 				Nullable: map[string]bool{}, Dyn: map[string][]string{}, File: file, Line: p.line}
 			cf.Contracts = append(cf.Contracts, cur)
 			return nil
@@ -308,6 +315,16 @@ func parseContractText(lines []string, lineNos []int, file, pkgPath string) (*Co
 			default:
 				return fmt.Errorf("%s:%d: unknown loop clause %q", file, p.line, f[1])
 			}
+		case "uses":
+			for _, n := range strings.Fields(strings.ReplaceAll(text, ",", " ")) {
+				cur.Uses = append(cur.Uses, n)
+			}
+		case "decreases":
+			c, err := parseClause(text, file, p.line)
+			if err != nil {
+				return err
+			}
+			cur.Decreases = append(cur.Decreases, c)
 		case "pure":
 			cur.Pure = true
 		case "trusted":
